@@ -28,7 +28,14 @@ FIELD_TYPES = ['CharField', 'TextField', 'IntegerField', 'BigIntegerField', 'Pos
 
 def ftype_cls(name):
     from django.db import models
-    return getattr(models, name)
+    cls = getattr(models, name, None)
+    if cls is None:
+        from . import customfields
+        cls = getattr(customfields, name)
+    return cls
+
+
+M2M_TYPES = ('ManyToManyField', 'TagsField')
 
 
 # ---------------------------------------------------------------------------
